@@ -186,6 +186,16 @@ def handle (st : St) (idx : Nat) (line : String) : St × String :=
       (st, emit idx impl { model := model,
                            fails := if implOut = model then [] else ["C08:blocked-handlers-delay-dispatch-on-other-connections"],
                            tags := [s!"bigblock k={k}"] })
+    | "conn" :: "fullrep" :: rest =>
+      -- offering an error report never holds the reader up (C15_one_report: the channel has one
+      -- slot and the offer is dropped when it is taken - Gen.channelSends), so the connection ends
+      -- and its notification fires (C14_once)
+      let model := "closed=1 cn=fired"
+      let implOut := " ".intercalate implToks
+      (st, emit idx impl { model := model,
+                           fails := if implOut = model then [] else
+                             ["C14:close-notify-did-not-fire", "C15:reader-held-up-by-an-unread-error-report"],
+                           tags := [s!"fullrep cn={(kvNat rest "cn").getD 0}"] })
     | "conn" :: "stall" :: rest =>
       -- however a connection with a stuck writer ends, its transport is closed - which is what
       -- fails the stuck write (C15_write_contained / C15_late_write_fails) -, the notification
@@ -217,6 +227,10 @@ def handle (st : St) (idx : Nat) (line : String) : St × String :=
                                     (if lost then ["C15:message-on-healthy-connection-lost-after-faults-elsewhere", "C05:message-of-a-healthy-stream-not-delivered"] else []) ++
                                     (if ¬ foreign ∧ ¬ lost ∧ implOut ≠ model then ["C15:faulty-connection-not-closed"] else []),
                            tags := [s!"xtalk fk={(kvNat rest "fk").getD 0} big={(kvNat rest "big").getD 0}"] })
+    | "smserver" :: "tlscer" :: rest =>
+      -- behind a TLS listener a CER is judged as anywhere else (C11_accept_iff has no transport in it)
+      let (i', j) := judgeSMServer dict st.intern ((kvNat rest "cfg").getD 0) "empty" "-" ((kv rest "segs").getD "") implToks
+      ({ st with intern := i' }, emit idx impl { j with tags := "tlscer" :: j.tags })
     | "smserver" :: "many" :: rest =>
       -- the k-th connection on a state machine is served like the first: the gate looks at the
       -- connection's own context (C10_gate / C10_after) and no handler waits for an application
